@@ -642,16 +642,28 @@ fn derive_func_op_shape(def: &FuncOpDef, symbol_table: &mut BTreeMap<Rc<str>, Sh
                     // The callback's own parameter names must not reach the
                     // caller's symbol table through its return shape.
                     let ret_shape = returned_shape(fdef, pos);
-                    let narrowed = acc_shape.narrow(&ret_shape, symbol_table);
-                    match narrowed {
-                        // The result is the accumulator for an empty target
-                        // and what the function returns otherwise. When the
-                        // two do not narrow to one shape it can be either.
-                        Shape::TypeErr(_, _) => Shape::Narrowed(NarrowedShape::new_with_pos(
+                    // The result is the accumulator for an empty target
+                    // and what the function returns otherwise. When the
+                    // two are not the same shape it can be either: a
+                    // function that grows the accumulator (`acc{a = x}`,
+                    // `acc + [x]`) returns more than it was given.
+                    let open = matches!(
+                        ret_shape,
+                        Shape::Hole(_)
+                            | Shape::Narrowed(NarrowedShape {
+                                pos: _,
+                                types: NarrowingShape::Any,
+                            })
+                    );
+                    let same = open
+                        || (acc_shape.equivalent(&ret_shape, symbol_table)
+                            && ret_shape.equivalent(&acc_shape, symbol_table));
+                    match acc_shape.narrow(&ret_shape, symbol_table) {
+                        narrowed if same && !matches!(narrowed, Shape::TypeErr(_, _)) => narrowed,
+                        _ => Shape::Narrowed(NarrowedShape::new_with_pos(
                             vec![acc_shape, ret_shape],
                             pos.clone(),
                         )),
-                        other => other,
                     }
                 }
                 _ => acc_shape,
